@@ -89,3 +89,6 @@ func (n *Node) VerifInitialUndetermined() int { return n.initialUndeterminedEven
 
 // VerifMonologue calls monologue.
 func (n *Node) VerifMonologue() error { return n.monologue() }
+
+// VerifJoin runs one iteration of the Joining state (Node.join).
+func (n *Node) VerifJoin() error { return n.join() }
